@@ -925,6 +925,14 @@ func (self Value) MarshalTo(to *proto.TypeDescriptor, opts *Options) ([]byte, er
 	r.Buf = self.raw()
 	var from = self.Desc
 	messageLen := len(r.Buf)
+	if !self.IsRoot {
+		// a message value cut out of its parent starts with its length prefix
+		l, err := r.ReadLength()
+		if err != nil {
+			return nil, wrapError(meta.ErrRead, "", err)
+		}
+		messageLen = l
+	}
 	if err := marshalTo(&r, w, from, to, opts, messageLen); err != nil {
 		return nil, err
 	}
